@@ -7,7 +7,7 @@ use std::rc::Rc;
 
 use serde::{Deserialize, Serialize};
 
-use crate::cfg::AvailableValueMap;
+use crate::cfg::{AvailableValueMap, MathOp};
 use crate::parser::{
     CsrImm, HasRegisterSets, InstructionProperties, LabelString, LabelStringToken,
     RegisterProperties,
@@ -316,16 +316,23 @@ fn rule_perform_math_ops(
                 .math_op()
                 .map(|op| op.operate(x, y))
                 .map(AvailableValue::Constant),
+            // (reg + x) +/- y == reg + (x +/- y)
             (
                 Some(AvailableValue::OriginalRegisterWithScalar(new_reg, x)),
                 Some(AvailableValue::Constant(y)),
-            )
-            | (
+            ) => node
+                .inst()
+                .scalar_op()
+                .map(|op| op.operate(x, y))
+                .map(|z| AvailableValue::OriginalRegisterWithScalar(new_reg, z)),
+            // x + (reg + y) == reg + (x + y); x - (reg + y) is not an offset of reg
+            (
                 Some(AvailableValue::Constant(x)),
                 Some(AvailableValue::OriginalRegisterWithScalar(new_reg, y)),
             ) => node
                 .inst()
                 .scalar_op()
+                .filter(|op| matches!(op, MathOp::Add))
                 .map(|op| op.operate(x, y))
                 .map(|z| AvailableValue::OriginalRegisterWithScalar(new_reg, z)),
             (_, _) => None,
